@@ -140,9 +140,9 @@ def run(ctx):
     flush()
 
     # ---- the feedback filter writes the integrator only through integrate / set_pva(correct_pva(get_pva(), .)) --
-    _filter_frame(ctx, py)
-    _filter_trace_runs(ctx, py)
-    _filter_standin(ctx, py)
+    ctx.guard(_filter_frame, ctx, py)
+    ctx.guard(_filter_trace_runs, ctx, py)
+    ctx.guard(_filter_standin, ctx, py)
 
     # ---- measurement models drop the vertical row (C06 obligations, 2D) -------------------------------------
     from props import C06
